@@ -104,7 +104,7 @@ func init() {
 	register(ruleState, ruleStateVerbose, ruleInitOnly, ruleScope)
 	addProp(&PropSpec{
 		ID:    "C09",
-		Rules: []string{"R-STATE", "R-INITONLY", "R-SCOPE", "R-ONELEVEL", "R-LAST", "R-EXECADDR", "R-EMITORDER", "R-COLLMONO"},
+		Rules: []string{"R-STATE", "R-INITONLY", "R-SCOPE", "R-ONELEVEL", "R-LAST", "R-EXECADDR", "R-EMITORDER", "R-COLLMONO", "R-NEXTBLIND"},
 		Explanation: "The 'context intact' clause of C09 as a typestate over the Executor's fields: every function that overwrites @ (current), the innermost array size, the base object or the structural-error flag loads the previous value first and writes it back on every exit path, error exits included; `$`, variables, options and the path are written only before evaluation starts. " +
 			"Decides the structural necessary condition (no leak of a nested context); does not decide the concatenation equation itself.",
 		Decided:     []string{"R-STATE: save/restore on every exit for each mutated context field (defer literal, restorer helper deferred at each call site, or explicit stores)", "R-INITONLY: `$`/vars/useTZ/path fixed during evaluation", "R-SCOPE: while @ is rebound no status-returning evaluation receives the step's own node (the rest of the outer chain sees the outer @)"},
@@ -158,7 +158,7 @@ func init() {
 func init() {
 	addProp(&PropSpec{
 		ID:          "C12",
-		Rules:       []string{"R-CMPMATRIX", "R-CMPTABLE", "R-STRPRED", "R-PREDLOOP", "R-REGEXFLAGS", "R-TOWER", "R-F2I", "R-ZONE", "R-CMPNORM", "R-EXECADDR", "R-EXACTCMP"},
+		Rules:       []string{"R-CMPMATRIX", "R-CMPTABLE", "R-STRPRED", "R-PREDLOOP", "R-REGEXFLAGS", "R-TOWER", "R-F2I", "R-ZONE", "R-CMPNORM", "R-EXECADDR", "R-EXACTCMP", "R-CTXZONE"},
 		Explanation: "The comparison layer is a stack of finite decision procedures, each extracted and compared with the stated order: the type dispatch as a 13×13 matrix obtained by walking the dispatcher once per ordered pair of item types (abstract interpretation with singleton type sets, descending into the datetime 5×5 helpers), the operator×sign table, the boolean and numeric three-way helpers, the lax-existential/strict-universal pairwise loop, the like_regex flag translation for all 32 flag sets, and the numeric tower as sibling agreement of type switches.",
 		Decided: []string{"R-CMPMATRIX: which pairs are comparable / null rule / unknown / incomparable / guarded by WithTZ (169 cells)",
 			"R-CMPTABLE: ==,!=,<,>,<=,>= applied to a sign; false<true; −1/0/+1 for </=/> (antisymmetry and duality are properties of these tables)",
@@ -171,7 +171,7 @@ func init() {
 func init() {
 	addProp(&PropSpec{
 		ID:          "C03",
-		Rules:       []string{"R-GRAMSYNC", "R-PREC", "R-KEYWORDS", "R-VOCAB", "R-OPTOKENS", "R-LEXRESET", "R-PRED", "R-NILNODE", "R-RUNEWRITE", "R-COMMENT", "R-FOLD", "R-NUMLIT", "R-EMPTYPROD", "R-RUNESTEP", "R-RUNEERR", "R-NARROW", "R-TOKENRANGE", "R-ERRDISCARD"},
+		Rules:       []string{"R-GRAMSYNC", "R-PREC", "R-KEYWORDS", "R-VOCAB", "R-OPTOKENS", "R-LEXRESET", "R-PRED", "R-NILNODE", "R-RUNEWRITE", "R-COMMENT", "R-FOLD", "R-NUMLIT", "R-EMPTYPROD", "R-RUNESTEP", "R-RUNEERR", "R-NARROW", "R-TOKENRANGE", "R-ERRDISCARD", "R-PARSE-RESULT", "R-GLOBALS"},
 		Explanation: "'Every spelling parses to the tree the grammar assigns it' has a large structural part: the compiled parser must be the grammar (goyacc is re-run and the result compared as syntax trees), the grammar must be conflict-free so that the precedence declarations decide nesting, the keyword table must agree with the grammar's tokens and key names, keywords that the printer emits must lead back to the same constants, the token buffer must never be dropped without an error, and the predicate flag must be set by exactly one production. These are agreements between sibling tables (lexer, grammar, generated parser, printer), decided from the sources.",
 		Decided: []string{"R-GRAMSYNC: grammar.go = goyacc(grammar.y); 0 conflicts", "R-PREC: declared precedence/associativity ↔ operator constants (via the actions)",
 			"R-KEYWORDS: one lower-case spelling per keyword token, true/false/null case-sensitive, every keyword usable as key name", "R-VOCAB: printed keyword → lexer → token → production → same constant",
@@ -182,7 +182,7 @@ func init() {
 	})
 	addProp(&PropSpec{
 		ID:          "C02",
-		Rules:       []string{"R-ESC", "R-PAREN", "R-OPPAREN", "R-PREC", "R-VOCAB", "R-OPTOKENS", "R-MARSHAL", "R-PARSE-RESULT", "R-RUNEWRITE", "R-RUNESTEP", "R-RUNEERR"},
+		Rules:       []string{"R-ESC", "R-PAREN", "R-OPPAREN", "R-PREC", "R-VOCAB", "R-OPTOKENS", "R-MARSHAL", "R-PARSE-RESULT", "R-RUNEWRITE", "R-RUNESTEP", "R-RUNEERR", "R-UNMARSHAL-ID", "R-FMTCONST"},
 		Explanation: "Necessary conditions of Parse(p.String()) = p that are visible in the shape of the printer and the lexer: every escape the printer can emit is decoded to the same code point; printed keywords lead back to the same constants; the printer's priorities equal the grammar's precedence levels; a node that can only carry an accessor chain inside parentheses prints those parentheses; the three marshalling forms are exactly String() and the unmarshalling forms hand their whole input to Parse.",
 		Decided: []string{"R-ESC: printer escape table ⊆ lexer escape table with equal meaning", "R-PAREN: parenthesisation before a trailing accessor chain (today: 6 known findings, D16)", "R-PREC: priority table = grammar levels",
 			"R-VOCAB: keyword vocabulary", "R-MARSHAL / R-PARSE-RESULT: Marshal* = String(), Unmarshal*/Scan = Parse of the whole input"},
